@@ -66,14 +66,17 @@ def _bind_slots(check, slots):
         _bind_slots(c, slots)
 
 
-def run_graph(ctx, templates):
+def run_graph(ctx, templates, leafname='leafrule'):
     from oslo_policy import _parser, policy
     common.set_ctx(ctx)
     k = len(templates)
     names = ['n%d' % i for i in range(k)]
-    universe = names + ['leafrule', 'nope']
+    universe = names + [leafname, 'nope']
     UNDEF = len(universe) - 1
-    rules = {'leafrule': _parser.parse_rule('role:x')}
+    # leafname='default': the defined leaf rule is also the default rule,
+    # so an undefined reference *evaluates* through it -- it is still an
+    # undefined reference for validation
+    rules = {leafname: _parser.parse_rule('role:x')}
     slot = {}
     for i, n in enumerate(names):
         body = _parser.parse_rule(TEMPLATES[templates[i]])
@@ -148,10 +151,13 @@ def cubes_graph(tier, seed):
     out = []
     for a in allt:
         out.append({'templates': [a]})
+        out.append({'templates': [a], 'leafname': 'default'})
     for a in allt:
         for b in allt:
             if NSLOTS[a] + NSLOTS[b] <= (4 if tier == 'quick' else 6):
                 out.append({'templates': [a, b]})
+                if NSLOTS[a] + NSLOTS[b] <= 3:
+                    out.append({'templates': [a, b], 'leafname': 'default'})
     n3 = 30 if tier == 'quick' else 200
     seen = set()
     tries = 0
